@@ -169,7 +169,7 @@ func (k *vfKeeper) GetPrivateKey(string) (*chiapos.PrivateKey, error) {
 // ---- case -------------------------------------------------------------------------------------------------
 
 type vfTask struct {
-	Kind        string `json:"kind"` // quality | proof | sig
+	Kind        string `json:"kind"` // quality | proof | sig | tquality (a quality request addressed to one collector)
 	Target      int    `json:"target"`
 	Read        int    `json:"read"`    // quality: reports the waiter reads before it leaves (0 = leaves at once, 99 = all that arrive within the window)
 	LateSub     bool   `json:"lateSub"` // a further local collector subscribes while the quality task is current
@@ -213,7 +213,7 @@ func vfGenC17(t *rapid.T) vfC17Case {
 	}
 	n := rapid.IntRange(1, 4).Draw(t, "ntasks")
 	for i := 0; i < n; i++ {
-		c.Tasks = append(c.Tasks, vfTask{Kind: rapid.SampledFrom([]string{"quality", "quality", "proof", "sig"}).Draw(t, "kind"), Target: rapid.IntRange(0, 6).Draw(t, "target"),
+		c.Tasks = append(c.Tasks, vfTask{Kind: rapid.SampledFrom([]string{"quality", "quality", "quality", "proof", "sig", "tquality"}).Draw(t, "kind"), Target: rapid.IntRange(0, 6).Draw(t, "target"),
 			Read: rapid.SampledFrom([]int{0, 0, 1, 3, 99}).Draw(t, "read"), LateSub: rapid.IntRange(0, 3).Draw(t, "late") == 0, RemoveTwice: rapid.Bool().Draw(t, "twice")})
 	}
 	c.Stop = rapid.Permutation([]string{"collectors", "relay", "pool"}).Draw(t, "stop")
@@ -616,6 +616,90 @@ func vfC17Run(c vfC17Case, ctx *vlib.Ctx) *vlib.Failure {
 			if n := func() int { kp.mu.Lock(); defer kp.mu.Unlock(); return kp.proofCalls[ch] + kp.signCalls[ch] }(); n != 1 {
 				return vlib.Failf("targeted-task-not-exactly-once", "%s: the target keeper served it %d times", where, n)
 			}
+		case "tquality":
+			tg := targets[task.Target%len(targets)]
+			if task.ViaRelay && targets[len(targets)-1].behind {
+				tg = targets[len(targets)-1]
+			}
+			id := uuid.New()
+			req := &protocol.RequestQualities{TaskID: id, Challenge: ch, ParentTarget: bigOne(), ParentSlot: nowSlot - 1, Height: 7}
+			rch := ls.AddTask(bg, tg.id, req)
+			// a collector that connects while this task is the most recent one is not its target
+			var late *vfLocal
+			if task.LateSub {
+				k := newVfKeeper(50+ti, c.NQ)
+				lc, cancel := NewLocalCollector(bg, ls, k)
+				late = &vfLocal{lc: lc, cancel: cancel, k: k}
+				lateLocals = append(lateLocals, late)
+			}
+			var msg *CollectorMsg
+			select {
+			case msg = <-rch:
+			case <-time.After(5 * time.Second): // the real waiter's bound
+			}
+			time.Sleep(300 * time.Millisecond)
+			if f := vfStopWithWatchdog("RemoveTask", func() { ls.RemoveTask(id) }); f != nil {
+				return f
+			}
+			// per connection and space the reports arrive in ascending slot order (also those queued before the removal)
+			tqLast := map[string]uint64{}
+			tqOrder := func(m *CollectorMsg) *vlib.Failure {
+				rq, ok := m.Msg.(*protocol.ReportQualities)
+				if !ok {
+					return nil
+				}
+				seenSpace := map[string]bool{}
+				for _, q := range rq.Qualities {
+					key := m.CollectorID.String() + "/" + q.SpaceID
+					if seenSpace[key] {
+						continue
+					}
+					seenSpace[key] = true
+					if last, ok := tqLast[key]; ok && q.Slot <= last {
+						return vlib.Failf("reports-out-of-order-on-one-connection", "%s: collector %s, space %s: report for slot %d delivered after the report for slot %d", where, m.CollectorID, q.SpaceID, q.Slot, last)
+					}
+					tqLast[key] = q.Slot
+				}
+				return nil
+			}
+			if msg != nil {
+				if f := tqOrder(msg); f != nil {
+					return f
+				}
+			}
+			for m := range rch { // reports queued before the removal
+				if f := tqOrder(m); f != nil {
+					return f
+				}
+			}
+			if msg == nil {
+				return vlib.Failf("targeted-report-not-delivered", "%s to collector %s (behind relay=%v): no quality report within the waiter's 5 s", where, tg.id, tg.behind)
+			}
+			if msg.CollectorID != tg.id || msg.Msg.ID() != id {
+				return vlib.Failf("report-tagged-with-wrong-collector", "%s: report tagged %s for task %s, the task %s was sent to %s", where, msg.CollectorID, msg.Msg.ID(), id, tg.id)
+			}
+			others := append([]*vfKeeper(nil), keepers...)
+			if late != nil {
+				others = append(others, late.k)
+			}
+			for _, l := range lateLocals {
+				others = append(others, l.k)
+			}
+			for _, k := range others {
+				k.mu.Lock()
+				n := k.qualityCalls[ch]
+				k.mu.Unlock()
+				isTarget := false
+				for _, tk := range tg.keepers {
+					if tk == k {
+						isTarget = true
+					}
+				}
+				if n > 0 && !isTarget {
+					return vlib.Failf("targeted-task-reached-other-collector", "%s for collector %s was also served by keeper %d", where, tg.id, k.idx)
+				}
+			}
+			ctx.Label("targeted-quality-task")
 		case "quality":
 			id := uuid.New()
 			req := &protocol.RequestQualities{TaskID: id, Challenge: ch, ParentTarget: bigOne(), ParentSlot: nowSlot - 1, Height: 7}
@@ -980,7 +1064,7 @@ func vfBlockedFractal(sig, msg string) *vlib.Failure {
 
 var vfC17Spec = vlib.Spec[vfC17Case]{
 	Prop: "C17", Name: "topology-histories", NoShrink: true,
-	Rule: "topologies of a LocalSuperior with 0-4 local collectors and optionally a CollectorPool (127.0.0.1:0) + PersistentRemoteSuperior relay with 1-3 collectors behind it, each collector on a scripted keeper; histories of 1-4 tasks (broadcast quality task with a waiter that reads 0/1/3/all reports and then leaves, targeted proof task, targeted signature task, late subscriber, RemoveTask once or twice), one collector (local or behind the relay) stopped after or during a generated task, the relay's uplink (through a TCP forwarder) cut after or during a generated task, optionally followed by waiting for the relay's own redial (30 s) and further tasks through it, stops in generated order; oracles: targeted tasks are served exactly once by the target only, reports arrive on the channel of the task they name, tagged with the collector they came through, with the content the scripted keeper produced, per collector and space in ascending slot order; every collector is asked exactly once per broadcast; RemoveTask and every stop return (verdict with goroutine stacks), a later task still completes; non-trivial = >=2 keepers with a relay, or a remove while reports are in flight, or >10 reports for one task; distinct = distinct case JSON",
+	Rule: "topologies of a LocalSuperior with 0-4 local collectors and optionally a CollectorPool (127.0.0.1:0) + PersistentRemoteSuperior relay with 1-3 collectors behind it, each collector on a scripted keeper; histories of 1-4 tasks (quality task addressed to one collector, optionally with a collector connecting right after it; broadcast quality task with a waiter that reads 0/1/3/all reports and then leaves, targeted proof task, targeted signature task, late subscriber, RemoveTask once or twice), one collector (local or behind the relay) stopped after or during a generated task, the relay's uplink (through a TCP forwarder) cut after or during a generated task, optionally followed by waiting for the relay's own redial (30 s) and further tasks through it, stops in generated order; oracles: targeted tasks are served exactly once by the target only, reports arrive on the channel of the task they name, tagged with the collector they came through, with the content the scripted keeper produced, per collector and space in ascending slot order; every collector is asked exactly once per broadcast; RemoveTask and every stop return (verdict with goroutine stacks), a later task still completes; non-trivial = >=2 keepers with a relay, or a remove while reports are in flight, or >10 reports for one task; distinct = distinct case JSON",
 	Gen:  vfGenC17, Run: vfC17Run,
 }
 
